@@ -1746,7 +1746,9 @@ func (s *Server) clearExpiredClients(dt int64) {
 
 		if disconnected+int64(expire) < dt {
 			s.hooks.OnClientExpired(client)
-			s.Clients.Delete(id) // [MQTT-4.1.0-2]
+			client.ClearInflights()
+			s.UnsubscribeClient(client) // the session ends: nothing of it may reach a later session with the same id
+			s.Clients.Delete(id)        // [MQTT-4.1.0-2]
 		}
 	}
 }
